@@ -291,6 +291,11 @@ func runOci(mode string, seed int64, tier string, sc *Script) map[string]any {
 			k := [2]int{n, ann}
 			if annMaps[k] == nil {
 				annMaps[k] = map[string]string{"verif.ann": fmt.Sprintf("a%d", ann)}
+				if ann == 2 {
+					// a descriptor obtained from another layout still carries the name it was
+					// resolved by there; the name it is tagged with here is what counts
+					annMaps[k][ocispec.AnnotationRefName] = "name-in-another-layout"
+				}
 			}
 			return annMaps[k]
 		}
@@ -741,7 +746,9 @@ func (c *ociCase) foreignRewrite(rng *rand.Rand, annOf func(n, ann int) map[stri
 			d := c.u.Nodes[r].Desc
 			d.Annotations = map[string]string{}
 			for k, v := range annOf(r, ann) {
-				d.Annotations[k] = v
+				if k != ocispec.AnnotationRefName { // (what the rewriting tool lists is decided below)
+					d.Annotations[k] = v
+				}
 			}
 			if nm != "-" {
 				d.Annotations[ocispec.AnnotationRefName] = "tag" + nm
